@@ -38,7 +38,7 @@ def ja_token(d, i, which, n):
     return Token(**kw)
 
 
-def h_xml(d, n, nlex, which, alen):
+def h_xml(d, n, nlex, which, alen, second=False):
     from depccg.tree import ScoredTree
     from depccg.printer.xml import xml_of
     from depccg.tools import reader
@@ -47,7 +47,13 @@ def h_xml(d, n, nlex, which, alen):
     t = c19.gen_derivation(d, 'en', n, nlex, lambda dd, i: en_token(dd, i, which, alen))
     if t is None:
         return True
-    root = xml_of([[ScoredTree(t, -1.0)], [ScoredTree(t, -2.0)]])
+    t_second = t
+    if second:      # the document's second sentence is another derivation (same lexicon, independent choices)
+        from engines.pysym.explore import Prefixed
+        t_second = c19.gen_derivation(Prefixed(d, 'second.'), 'en', n, nlex, lambda dd, i: en_token(d, i + 10, None, 0))
+        if t_second is None:
+            return True
+    root = xml_of([[ScoredTree(t, -1.0)], [ScoredTree(t_second, -2.0)]])
     f = env.xml_file('c15.xml', root)
     try:
         res = list(reader.read_xml(f))
@@ -55,7 +61,7 @@ def h_xml(d, n, nlex, which, alen):
         return ('xml.read-raises:' + type(e).__name__,)
     if len(res) != 2:
         return ('xml.count', len(res))
-    for r in res:
+    for r, t in zip(res, [t, t_second]):
         t2 = r.tree
         why = trees.same_structure(t, t2, heads=True, labels=True)
         if why == 'label' and _label_of_another_rule(t, t2):
@@ -251,6 +257,8 @@ def obligations(tier):
             yield Obligation('C15.jigg[n=%d,lexicon=%d,nbest=2,second tree differs]' % (n, nl2), 'h_jigg',
                              dict(n=n, nlex=nl2, which=None, alen=0, nbest=2, second=True), cost=n * n * 30)
     yield Obligation('C15.xml[n=2,lexicon of the listed special rules]', 'h_xml', dict(n=2, nlex='special', which=None, alen=0), cost=10)
+    yield Obligation('C15.xml[n=2,lexicon , NP conj ; (one pair of children, several results),second sentence differs]', 'h_xml', dict(n=2, nlex=[',', 'NP', 'conj', ';'], which=None, alen=0, second=True), cost=60)
+    yield Obligation('C15.xml[n=2,lexicon=4,second sentence differs]', 'h_xml', dict(n=2, nlex=4, which=None, alen=0, second=True), cost=60)
     for n in ((1, 2, 3) if q else (1, 2, 3, 4)):
         yield Obligation('C15.normalize[len=%d]' % n, 'h_normalize', dict(n=n), cost=n * 3)
 
